@@ -283,6 +283,8 @@ func (ed *Enum) unmarshalSeed(b []byte, sb *strs.Builder, pf *File, pd protorefl
 				ed.L0.FullName = appendFullName(sb, pd.FullName(), v)
 			case genid.EnumDescriptorProto_Value_field_number:
 				numValues++
+			case genid.EnumDescriptorProto_Options_field_number:
+				ed.unmarshalSeedOptions(v)
 			}
 		case protowire.VarintType:
 			v, m := protowire.ConsumeVarint(b)
@@ -316,6 +318,25 @@ func (ed *Enum) unmarshalSeed(b []byte, sb *strs.Builder, pf *File, pd protorefl
 			case genid.EnumDescriptorProto_Value_field_number:
 				ed.L2.Values.List[i].unmarshalFull(v, sb, pf, ed, i)
 				i++
+			}
+		default:
+			m := protowire.ConsumeFieldValue(num, typ, b)
+			b = b[m:]
+		}
+	}
+}
+
+func (ed *Enum) unmarshalSeedOptions(b []byte) {
+	for len(b) > 0 {
+		num, typ, n := protowire.ConsumeTag(b)
+		b = b[n:]
+		switch typ {
+		case protowire.BytesType:
+			v, m := protowire.ConsumeBytes(b)
+			b = b[m:]
+			switch num {
+			case genid.EnumOptions_Features_field_number:
+				ed.L1.EditionFeatures = unmarshalFeatureSet(v, ed.L1.EditionFeatures)
 			}
 		default:
 			m := protowire.ConsumeFieldValue(num, typ, b)
